@@ -2,6 +2,7 @@
 
 HARNESSES = {
     "c11_early": {"src": ["harness/c11_early.cpp"]},
+    "c11_stats": {"src": ["harness/c11_stats.cpp"]},
 }
 
 CHECKS = {
@@ -21,6 +22,10 @@ CHECKS = {
         "stages": [
             {"name": "early", "harness": "c11_early", "share": 0.5,
              "what": "early_stopping_t::done/round/value/values vs reference monitor, BFS over histories"},
+            {"name": "stats", "harness": "c11_stats", "share": 0.5,
+             "what": "stored per-(trial, fold) and final statistics vs recomputation from the stored models; predict = bias + "
+                     "sum of weak learners; final = average of fold models; kept round = last accepted improvement"},
+            {"name": "stats-asan", "harness": "c11_stats", "variant": "asan", "tiers": ["debug"], "what": "debug only"},
         ],
     },
 }
